@@ -9,9 +9,10 @@ package groups
 //@   ghost field $fills int
 //@   guarded_by cache, inflight, refreshLoopGroups : mu
 //@   typeinv maps_made: this.cache != nil && this.inflight != nil && this.refreshLoopGroups != nil
+//@   typeinv bookkeeping_maps_distinct: this.inflight != this.refreshLoopGroups
 
 //@ func NewFillCache(fillFunc FillFunc, refreshTTL time.Duration) *FillCache
-//@   ensures [C17] starts_empty: result != nil && result.cache != nil && result.inflight != nil && result.refreshLoopGroups != nil && len(result.cache) == 0 && len(result.inflight) == 0 && len(result.refreshLoopGroups) == 0 && result.fillFunc == fillFunc
+//@   ensures [C17] starts_empty: result != nil && result.cache != nil && result.inflight != nil && result.refreshLoopGroups != nil && len(result.cache) == 0 && len(result.inflight) == 0 && len(result.refreshLoopGroups) == 0 && result.inflight != result.refreshLoopGroups && result.fillFunc == fillFunc
 
 // What the cache holds for the group at the moment the read lock is held.
 //@ func (c *FillCache) Get(group string) (MemberSet, bool)
@@ -51,6 +52,8 @@ package groups
 // Its deferred cleanup: unregisters exactly this group, under the lock.
 //@ func (c *FillCache) RefreshLoop$1$1()
 //@   modifies everything
+//@   ensures [C17] touches_no_fill_marker: forall k string :: at(@Unlock#1, (k in c.inflight)) == at(@Lock#1, (k in c.inflight))
+//@   ensures [C17] touches_no_cached_list: forall k string :: at(@Unlock#1, (k in c.cache)) == at(@Lock#1, (k in c.cache)) && at(@Unlock#1, c.cache[k]) == at(@Lock#1, c.cache[k])
 //@   ensures [C17] unregisters_only_its_group: at(@Unlock#1, !(group in c.refreshLoopGroups)) && (forall k string :: k != group ==> at(@Unlock#1, (k in c.refreshLoopGroups)) == at(@Lock#1, (k in c.refreshLoopGroups)))
 
 // ---- C17: the answer cache (LocalCache over a concurrent map) -------------------------------------------------
